@@ -72,7 +72,7 @@ def opname(cmd):
 
 
 def run(v, tier, seed):
-    vlib.make("plain", "refl")
+    rc.build_refl()
     W = lambda n: vlib.scratch("C04", n)
     insts = dict(QUICK)
     if tier == "thorough": insts.update(THOROUGH)
